@@ -335,6 +335,14 @@ func runProperty(P *Prog, prop, tier string, seed int, verif, outDir string) *pr
 	var smokeFailed []string
 	os.RemoveAll(filepath.Join(outDir, "replays", "out", prop+"-vacuity"))
 	retAll, retBad := map[string]int{}, map[string]int{}
+	vacuousFn := map[string]bool{}
+	// a function with an undischarged obligation is reported for that obligation; the contradiction that may follow
+	// from assuming the failed goal is not a second finding
+	for _, o := range obls {
+		if o.Status != "discharged" {
+			vacuousFn[o.Func] = true
+		}
+	}
 	for _, o := range smokes {
 		isRet := strings.Contains(o.Name, "/smoke/return#")
 		if isRet {
@@ -346,6 +354,11 @@ func runProperty(P *Prog, prop, tier string, seed int, verif, outDir string) *pr
 				continue
 			}
 			smokeFailed = append(smokeFailed, o.Name)
+			// (one report per function: everything after the first contradiction is vacuous anyway)
+			if vacuousFn[o.Func] {
+				continue
+			}
+			vacuousFn[o.Func] = true
 			// contradictory assumptions at the entry of a function or at a loop head: everything proved after that point
 			// is vacuous, so the property is not decided for this function
 			res.violations++
